@@ -67,6 +67,15 @@ def subelement(it, a, k):
 
 def install(reg):
     E = reg.externals
+
+    class ElementFactory:
+        @staticmethod
+        def fresh(it, name):
+            return new(it, ELEMENT, {"tag": VStr(it.path.const(name + ".tag", STR)),
+                                     "text": VOpt(it.path.const(name + ".text.none", z3.BoolSort()), VStr(it.path.const(name + ".text", STR))),
+                                     "children": VList(items=[])})
+
+    reg.model_classes["xml.Element"] = ElementFactory
     E["xml.etree.ElementTree"] = VModule("xml.etree.ElementTree")
     E["xml.etree.ElementTree.Element"] = VNative(element, "ET.Element")
     E["xml.etree.ElementTree.SubElement"] = VNative(subelement, "ET.SubElement")
